@@ -1,10 +1,11 @@
 import Enc.Lemmas.Proto
+import Enc.Lemmas.ProtoDecode
 /-!
 # C07 — proto decoding is total and ignores unknown fields
-Property theorems only.
+Property theorems only (proofs in Enc/Lemmas/ProtoDecode.lean).
 -/
 namespace Enc.Props.C07
-open Enc Enc.Model.Proto
+open Enc Enc.Model.Proto Enc.Lemmas.ProtoDecode
 
 /-- the varint reader never panics, whatever the bytes (truncated, over-long, overflowing) -/
 theorem decodeVarint_total (b : Bytes) (x : BitVec 64) (s i : Nat) :
@@ -32,5 +33,48 @@ theorem decodeVarint_consumes (b : Bytes) (x : BitVec 64) (s i : Nat) (v : BitVe
         simp only [List.length_cons]; omega
     · have := ih _ _ _ h
       simp only [List.length_cons]; omega
+
+/-- **MAIN (totality).** For every message type whose codec tree contains no unsupported Go kind, and EVERY byte
+string — malformed, type-mismatched, truncated at any offset, with over-long varints or absurd lengths — `Unmarshal`
+returns a value or an error: the index arithmetic of the decoders (every slice expression is modelled with Go's
+bounds rules) never goes out of range. -/
+theorem unmarshal_ne_panic (t : Ty) (b : Bytes) (e : String) (h : Codec.Supported (codecOf t) = true) :
+    unmarshal t b ≠ .panic e :=
+  Lemmas.ProtoDecode.unmarshal_ne_panic t b e h
+
+/-- the recursion always finishes within the model's budget (no input drives the decoder into unbounded descent) -/
+theorem unmarshal_ne_fuel (t : Ty) (b : Bytes) : unmarshal t b ≠ .err "fuel" :=
+  Lemmas.ProtoDecode.unmarshal_ne_fuel t b
+
+/-- a decoder never claims more bytes than it was given -/
+theorem decode_bound (fuel : Nat) (c : Codec) (b : Bytes) (cur : Val) (fl : Flags) (v : Val) (n : Nat)
+    (h : decode fuel c b cur fl = .ok (v, n)) : n ≤ b.length :=
+  Lemmas.ProtoDecode.decode_bound fuel c b cur fl v n h
+
+/-- the struct loop succeeds only at the end of its buffer: no partial consumption is ever reported as success -/
+theorem decodeStruct_consumes_all (fuel : Nat) (fs : CFields) (b : Bytes) (lenB : Nat) (vs : Vals) (fl : Flags)
+    (off : Nat) (vs' : Vals) (n : Nat) (h : decodeStruct fuel fs b lenB vs fl off = .ok (vs', n)) :
+    n = off + b.length :=
+  Lemmas.ProtoDecode.decodeStruct_consumes_all fuel fs b lenB vs fl off vs' n h
+
+/-- **MAIN (unknown fields).** A well-formed record (tag + payload of wire type 0, 1, 2 or 5; over-long varints
+included) whose field number the target does not declare, placed in front of a message body, does not change what
+`Unmarshal` returns — value or error. -/
+theorem unmarshal_skip_front (Fs : Fields) (number : Nat) (rec body : Bytes)
+    (hlk : lookupField (fieldsOf 1 Fs) number = none) (hrec : IsRecord number rec) :
+    unmarshal (.struct Fs) (rec ++ body) = unmarshal (.struct Fs) body :=
+  Lemmas.ProtoDecode.unmarshal_skip_front Fs number rec body hlk hrec
+
+/-- … nor when it is inserted after any prefix of the message that decodes on its own (i.e. at a field boundary) -/
+theorem unmarshal_skip_anywhere (Fs : Fields) (number : Nat) (pre rec rest : Bytes) (v1 : Val)
+    (hlk : lookupField (fieldsOf 1 Fs) number = none) (hrec : IsRecord number rec)
+    (hpre : unmarshal (.struct Fs) pre = .ok v1) :
+    unmarshal (.struct Fs) (pre ++ (rec ++ rest)) = unmarshal (.struct Fs) (pre ++ rest) :=
+  Lemmas.ProtoDecode.unmarshal_skip_anywhere Fs number pre rec rest v1 hlk hrec hpre
+
+/-- what the encoder writes for an undeclared field is such a record (non-vacuity of `IsRecord`) -/
+theorem isRecord_canonical (number : Nat) (w : Wire) (p : Bytes) (h : number < 2 ^ 61)
+    (hp : IsPayload w.num p) : IsRecord number (encodeTag number w ++ p) :=
+  Lemmas.ProtoDecode.isRecord_canonical number w p h hp
 
 end Enc.Props.C07
